@@ -81,13 +81,79 @@ func ZZC09Poisoned() {
 	nd.Assert(reports == 0, "nothing reported")
 }
 
+// valid annotation LINES at placements that are not doc comments of top-level declarations: trailing comment of a type
+// without doc, doc of a local type, a line inside a block-comment doc, comment inside a body, doc of var/const
+const c09SrcPlacement = `package d
+
+type Counter struct {
+	N int
+} //«p1»
+
+type Plain struct{ N int } //«p2»
+
+/*
+Example of an annotated declaration:
+
+//«p3»
+type Quoted struct{}
+*/
+type Quoted struct {
+	N int
+}
+
+//«p6»
+var Global Counter
+
+func Work(c *Counter, q *Quoted, p *Plain) int {
+	//«p4»
+	type Local struct {
+		N int
+	}
+	//«p5»
+	c.N = 1
+	c.N++
+	q.N = 2
+	p.N += 3
+	l := Local{N: 4}
+	l.N = 5
+	_ = Counter{}
+	_ = new(Quoted)
+	var z Plain
+	return l.N + z.N + Helper()
+}
+
+func Helper() int { return 0 }
+`
+
+var c09Valid = []string{" @immutable", " @constructor Make", " @testonly", " @packageonly w", " @mutable", " plain"}
+
+// ZZC09Placement: VALID annotation lines, but only at placements that are not doc comments of top-level declarations
+// (trailing comments, a quoted example inside a block-comment doc, doc of a local type, comment in a body, doc of a
+// var): nothing is read as an annotation and no analyzer reports anything.
+func ZZC09Placement() {
+	holes := []nd.Hole{}
+	nonPlain := 0
+	for _, n := range []string{"p1", "p2", "p3", "p4", "p5", "p6"} {
+		v := nd.EnumPad(n, c09Valid...)
+		holes = append(holes, nd.Hole{Name: n, Value: v})
+		nonPlain += nd.IteInt(nd.HasPrefix(v, " plain"), 0, 1)
+	}
+	nd.Assume(nonPlain <= 2)
+	prog := nd.LoadProgram([]nd.File{{Pkg: "zzmod/d", Name: "d.go", Src: c09SrcPlacement}}, holes)
+	r := Analyze(prog, config.Default(), "zzmod/d", Facts{}, "imm", "ctor", "tonl", "pkgo")
+	a := r.Ann
+	n := len(a.ImplementsAnnotations) + len(a.ConstructorAnnotations) + len(a.ImmutableAnnotations) + len(a.TestonlyAnnotations) + len(a.MutableAnnotations) + len(a.PackageOnlyAnnotations)
+	nd.Assert(n == 0, "annotation lines outside top-level doc comments produce no annotation")
+	nd.Assert(len(r.Diags) == 0, "and therefore no diagnostic")
+}
+
 var c09NearMiss = []string{" plain", " see @immutable and @constructor New", " @Immutable", " @immutablex", " @TESTONLY", " @packageonlyx w", " @ constructor New", " constructor: @testonly"}
 
 // ZZC09Corpus: the skeleton programs of C01-C04 with every annotation comment replaced by an arbitrary near-miss
 // (keyword mid-sentence, other letter case, prefix of a longer word, blank after @): no annotation is read and no
 // analyzer reports anything, under symbolic configuration.
 func ZZC09Corpus() {
-	names := []string{"annT", "annN", "ctor", "mut", "annH", "annF", "annM", "annFix", "annFixM", "annT2"}
+	names := []string{"annT", "annN", "ctor", "mut", "annH", "annF", "annM", "annFix", "annFixM", "annT2", "annG", "ctor2"}
 	holes := []nd.Hole{{"op", "+="}, {"inc", "++"}, {"fname", "prod.go"}}
 	// two independent near-miss choices, assigned alternately to the comment sites
 	nmA := nd.EnumPad("nm_a", c09NearMiss...)
